@@ -175,7 +175,7 @@ func renderGoProgram(d gsDesc) string {
 		}
 		return "out(" + X + ")"
 	}
-	inFunc := false
+	inFunc, inLit := false, false
 	switch d.Shk {
 	case "local":
 		m("var %s = %s", X, shVal)
@@ -192,6 +192,8 @@ func renderGoProgram(d gsDesc) string {
 		}
 	case "param":
 		inFunc = true
+	case "litparam":
+		inLit = true
 	case "pkgvar":
 		p("var %s = %s", X, shVal)
 		m(useX())
@@ -205,7 +207,15 @@ func renderGoProgram(d gsDesc) string {
 	if d.Shk == "local" && X == "fmt" {
 		m("_ = fmt")
 	}
-	if inFunc {
+	if inLit {
+		// the site sits inside a function-literal ARGUMENT whose parameter has the shadowing name
+		body := strings.Join(site, "\n\t\t")
+		if u := useX(); u != "" {
+			body = u + "\n\t\t" + body
+		}
+		p("func each1(f func(%s)) { f(%s) }", shType, shVal)
+		m("each1(func(%s %s) {\n\t\t%s\n\t})", X, shType, body)
+	} else if inFunc {
 		body := strings.Join(site, "\n\t")
 		u := useX()
 		if u != "" {
@@ -287,6 +297,10 @@ func renderGoProgram(d gsDesc) string {
 	case "void":
 		p("func run(f func()) { f() }")
 		m(`run(func() { out("in run") })`)
+	case "barereturn":
+		p("func run(f func()) { f() }")
+		m(`run(func() { return })`)
+		m(`out("after run")`)
 	case "voidmulti":
 		p("func run(f func()) { f() }")
 		m("run(func() {\n\t\tout(\"a\")\n\t\tout(\"b\")\n\t})")
@@ -521,6 +535,9 @@ func actualShape(xsrc string, d gsDesc) (gsShape, string) {
 					}
 				}
 			}
+			if id, ok := v.Fun.(*ast.Ident); ok && id.Name == "each1" {
+				return true
+			}
 			for _, a := range v.Args {
 				switch a.(type) {
 				case *ast.LambdaExpr:
@@ -657,7 +674,7 @@ func runGopStyle() {
 			res.V, res.Sig, res.Detail = "skip", "original-timeout", detail("")
 			nskip++
 		case cv.ConvPanic != "":
-			res.V, res.Sig, res.Detail = "viol", "convert-panic", detail(cv.ConvPanic)
+			res.V, res.Sig, res.Detail = "viol", "convert-panic:"+sigBase, detail(cv.ConvPanic)
 		case cv.ConvErr != "":
 			res.V, res.Sig, res.Detail = "viol", "convert-error:"+sigBase, detail(cv.ConvErr)
 		case cv.CompileErr != "":
